@@ -7,7 +7,8 @@
    [raises]/[writes]/[fbval] are arbitrary user behaviour, per invocation.
    Statements only. *)
 From Coq Require Import ZArith List Bool.
-From RV Require Import Robot.Model Robot.Proofs Robot.Loop Robot.Lifecycle Robot.Examples.
+From RV Require Import Robot.Model Robot.Proofs Robot.Loop Robot.Lifecycle Robot.Examples Robot.Period.
+From RV Require Delay.Model.
 Import ListNotations.
 Open Scope Z_scope.
 
@@ -18,9 +19,9 @@ Variable writes : nat -> list (nat * nat * Z).
 Variable fbval : nat -> Z.
 
 (* the robot makes exactly the specified calls, in the specified order, for every
-   layout and every sequence of mode changes (FMS attached: whatever raises;
+   layout and every sequence of mode changes (FMS attached and staying attached: whatever raises;
    the fault-free case is the instance raises = fun _ => false of C07) *)
-Theorem C05_calls_are_the_specified_sequence : forall ts, fms c = true -> setup_quiet c raises ->
+Theorem C05_calls_are_the_specified_sequence : forall ts, fms c = true -> fms_ticks_stay true ts = true -> setup_quiet c raises ->
   sites (snd (robot_run c raises writes fbval ts)) = spec_sites c ts
   /\ in_flight (fst (robot_run c raises writes fbval ts)) = false.
 Proof. exact (fun ts => run_fms c raises writes fbval ts). Qed.
@@ -57,11 +58,23 @@ Theorem C05_mode_written_on_entry : forall m,
 Proof. exact (fun m => match m with Disabled | Auto | Teleop | Test => ex_intro _ _ eq_refl end). Qed.
 End C05.
 
+(* Within a mode exactly one pass happens per control_loop_wait_time of FPGA time: the mode loop
+   creates its NotifierDelay (period p microseconds) at entry time t0, runs a pass, calls wait(),
+   and so on (the Delay model of C16: a schedule of pass durations [bs]).  Whenever no pass -- the
+   first one includes the mode's entry code -- takes longer than the period, the wait after pass i
+   returns, i.e. pass i+1 starts, exactly at t0 + (i+1)*p.  (Overruns: C16_catches_up.) *)
+Theorem C05_one_iteration_per_period : forall p t0 bs, 0 <= p ->
+  (forall i b, nth_error bs i = Some b -> 0 <= b <= p) ->
+  forall i c r,
+    nth_error (Delay.Model.wait_log (Delay.Model.create p t0, t0) (Delay.Model.sched bs)) i = Some (c, r) ->
+    r = Delay.Model.grid t0 p (S i).
+Proof. exact passes_on_grid. Qed.
+
 (* Non-vacuity: the example robot through disabled, teleop x2, autonomous, test, disabled, end;
    robotPeriodic sees /robot/mode = the running mode in every pass (also under faults) *)
 Example C05_nv :
-  map (fun e => match e with EvRP m _ => m | _ => None end)
-      (filter (fun e => match e with EvRP _ _ => true | _ => false end) (snd (ex_run true)))
+  map (fun e => match e with EvRP m _ _ => m | _ => None end)
+      (filter (fun e => match e with EvRP _ _ _ => true | _ => false end) (snd (ex_run true)))
   = [Some Disabled; Some Teleop; Some Teleop; Some Auto; Some Test; Some Disabled]
   /\ sites (snd (ex_run true)) = spec_sites (ex_cfg true) ex_ticks
   /\ length (spec_sites (ex_cfg true) ex_ticks) = 53%nat.
@@ -72,3 +85,4 @@ Print Assumptions C05_iteration_order.
 Print Assumptions C05_execute_once_when_enabled_never_otherwise.
 Print Assumptions C05_one_pass_per_wakeup.
 Print Assumptions C05_mode_written_on_entry.
+Print Assumptions C05_one_iteration_per_period.
